@@ -149,6 +149,12 @@ def r1_r2(ctx: Ctx, pf: FuncInfo) -> None:
             'description_template': 'description_template'}
     bad = {k: kw.get(k) for k, v in want.items() if kw.get(k) != v}
     ctx.check(not bad, 'C18.R2', pf, 'construction', 'FormatSpec fields come from the like-named table entries', f'FormatSpec built with {bad}', build[0])
+    # the description template is text the user wrote (`PayPal *{merchant} via VISA`): it reaches the FormatSpec unchanged
+    tk = [k.value for k in build[0].keywords if k.arg == 'description_template']
+    if tk:
+        folds = sorted(o for o in fl.atoms(tk[0], build[0]) if o in ('call:lower', 'call:upper', 'call:casefold', 'call:title', 'call:strip', 'call:replace', 'call:sub'))
+        ctx.check(not folds, 'C18.R2', pf, 'template-as-written', 'the description template is stored as written', f'the description template goes through {folds} before it is stored: its literal '
+                  f'text is rewritten and every description built from it differs from what the user configured', build[0])
     # sign mode and date format.  Whatever the spelling: (1) inside the column loop the sign flags - or whatever they are later computed from - are only
     # written for the amount field; (2) '-' is what turns on negate_amount and '+' what turns on abs_amount.
     text = src(lp)
